@@ -66,3 +66,17 @@ func probeViewsMain() {
 		}
 	}
 }
+
+// `mc probe-dtypes` (development aid): which of the per-type representative cases the pinned implementation refuses at
+// run time although the operator's gate admits the type (the list that repCases hard-codes as excluded).
+func probeDtypesMain() {
+	for _, rc := range repCases() {
+		if len(rc.Desc) < 5 || rc.Desc[:5] != "elem=" {
+			continue
+		}
+		res := hx.RunOp(rc.opCase())
+		if res.Err != nil || res.Panic != "" {
+			fmt.Printf("%s %s: err=%v panic=%.80s\n", rc.Op, rc.Desc, res.Err, res.Panic)
+		}
+	}
+}
